@@ -386,3 +386,203 @@ pub fn nth_sequence(alphabet: &[Tok], len: usize, mut idx: u64, out: &mut Vec<To
 pub fn count_sequences(k: usize, len: usize) -> u64 {
     (k as u64).pow(len as u32)
 }
+
+// ---------------------------------------------------------------------------------------------
+// scale: programs whose size, count or length crosses the thresholds small examples never reach
+// ---------------------------------------------------------------------------------------------
+
+/// Sizes around the capacities such code typically has (inline buffers, u8 counters, block sizes).
+pub const SCALE_SIZES: [usize; 27] =
+    [1, 2, 3, 4, 7, 8, 9, 15, 16, 17, 31, 32, 33, 47, 63, 64, 65, 100, 127, 128, 129, 200, 255, 256, 257, 300, 400];
+
+/// A program of one of the scaled shapes together with the context it is meant for. The context
+/// has the recording functions `rec` (identity) and `tag` (Tag(1)) and integer variables as needed.
+#[derive(Clone, Debug)]
+pub struct Scaled {
+    pub shape: &'static str,
+    pub n: usize,
+    pub ast: Ast,
+    pub ctx: Ctx,
+}
+
+pub const SCALED_SHAPES: usize = 15;
+
+pub fn scaled(shape: usize, n: usize, salt: u64) -> Scaled {
+    use crate::ast::{AssignOp, BinOp};
+    let lit = |i: usize| Ast::Lit(RV::Int(i as i64));
+    let var = |i: usize| Ast::Var(format!("v{}", i));
+    let mut ctx = Ctx::hashmap();
+    ctx.funcs.insert("rec".into(), UF::Identity);
+    ctx.funcs.insert("tag".into(), UF::Tag(1));
+    let bind = |ctx: &mut Ctx, k: usize| {
+        for i in 0..k {
+            ctx.vars.insert(format!("v{}", i), RV::Int((i as i64) * 3 + 1));
+        }
+    };
+    let pick = |i: usize| -> Ast {
+        match (i as u64 + salt) % 4 {
+            0 => lit(i),
+            1 => var(i),
+            2 => Ast::Call("rec".into(), Box::new(lit(i))),
+            _ => Ast::Lit(RV::Str(format!("s{}", i))),
+        }
+    };
+    let (name, ast): (&'static str, Ast) = match shape % SCALED_SHAPES {
+        0 => {
+            bind(&mut ctx, n);
+            ("tuple of n mixed elements", Ast::Tuple((0..n.max(2)).map(pick).collect()))
+        },
+        1 => {
+            let mut v: Vec<Ast> = vec![Ast::Assign(AssignOp::Set, "x".into(), Box::new(lit(0)))];
+            for i in 1..n.max(2) {
+                v.push(if (i as u64 + salt) % 3 == 0 {
+                    Ast::Call("rec".into(), Box::new(Ast::Var("x".into())))
+                } else {
+                    Ast::Assign(AssignOp::Add, "x".into(), Box::new(lit(i)))
+                });
+            }
+            v.push(Ast::Var("x".into()));
+            ("chain of n statements on one variable", Ast::Chain(v))
+        },
+        2 => {
+            bind(&mut ctx, n);
+            let mut e = var(0);
+            for i in 1..n.max(2) {
+                let op = if (i as u64 + salt) % 5 == 0 { BinOp::Sub } else { BinOp::Add };
+                e = Ast::Bin(op, Box::new(e), Box::new(var(i)));
+            }
+            ("sum over n distinct variables", e)
+        },
+        3 => {
+            bind(&mut ctx, n);
+            let f = ["min", "max", "rec", "tag", "str::from", "len", "typeof"][(salt % 7) as usize];
+            ("call with an n-tuple argument", Ast::Call(f.into(), Box::new(Ast::Tuple((0..n.max(2)).map(|i| if i % 2 == 0 { lit(i) } else { var(i) }).collect()))))
+        },
+        4 => {
+            // n distinct variables assigned, then all read
+            // right-hand sides of 1, 2 and 3 tokens, so that identifiers fall on every token offset
+            let rhs = |i: usize| match (i as u64 + salt) % 3 {
+                0 => lit(i * 7),
+                1 => Ast::Neg(Box::new(lit(i * 7))),
+                _ => Ast::Bin(BinOp::Add, Box::new(lit(i)), Box::new(lit(i * 6))),
+            };
+            let mut v: Vec<Ast> = (0..n).map(|i| Ast::Assign(AssignOp::Set, format!("v{}", i), Box::new(rhs(i)))).collect();
+            v.push(Ast::Tuple((0..n.max(2)).map(var).collect()));
+            ("n distinct variables assigned, then read", Ast::Chain(v))
+        },
+        5 => {
+            let needle = if salt % 2 == 0 { n.saturating_sub(1) } else { n + 5 };
+            let hay = Ast::Tuple((0..n.max(2)).map(lit).collect());
+            let f = if salt % 3 == 0 { "contains_any" } else { "contains" };
+            let arg = if f == "contains" { Ast::Tuple(vec![hay, lit(needle)]) } else { Ast::Tuple(vec![hay, Ast::Tuple(vec![lit(n + 9), lit(needle)])]) };
+            ("contains / contains_any on an n-element tuple", Ast::Call(f.into(), Box::new(arg)))
+        },
+        6 => {
+            let name: String = std::iter::once('q').chain((0..n).map(|i| char::from(b'a' + ((i as u64 + salt) % 26) as u8))).collect();
+            ctx.vars.insert(name.clone(), RV::Int(5));
+            ("identifier of n characters", Ast::Chain(vec![Ast::Assign(AssignOp::Mul, name.clone(), Box::new(lit(3))), Ast::Bin(BinOp::Add, Box::new(Ast::Var(name)), Box::new(lit(1)))]))
+        },
+        7 => {
+            let text: String = (0..n).map(|i| ['a', 'ä', ' ', '"', '\\', 'z', '/', '*'][((i as u64 * 7 + salt) % 8) as usize]).collect();
+            let f = ["len", "str::to_uppercase", "str::trim", "rec"][(salt % 4) as usize];
+            ("string literal of n characters", Ast::Call(f.into(), Box::new(Ast::Lit(RV::Str(text)))))
+        },
+        8 => {
+            // n nested calls / parentheses around a sum
+            // effectful operands at the innermost point: their order and number must survive the depth
+            let mut e = Ast::Bin(BinOp::Sub, Box::new(Ast::Call("rec".into(), Box::new(lit(1)))), Box::new(Ast::Call("tag".into(), Box::new(lit(2)))));
+            for i in 0..n.min(300) {
+                e = match (i as u64 + salt) % 3 {
+                    0 => Ast::Call("rec".into(), Box::new(e)),
+                    1 => Ast::Neg(Box::new(e)),
+                    _ => Ast::Bin(BinOp::Mul, Box::new(lit(1)), Box::new(e)),
+                };
+            }
+            ("n nested applications", e)
+        },
+        9 => {
+            // tuple of n assignments' results and reads: effects inside a wide tuple
+            let v: Vec<Ast> = (0..n.max(2))
+                .map(|i| if i % 2 == 0 { Ast::Chain(vec![Ast::Assign(AssignOp::Set, format!("v{}", i % 5), Box::new(lit(i))), Ast::Var(format!("v{}", i % 5))]) } else { Ast::Call("tag".into(), Box::new(lit(i))) })
+                .collect();
+            ("tuple of n effectful elements", Ast::Tuple(v))
+        },
+        10 => {
+            bind(&mut ctx, n);
+            // comparison / logic chain over n variables
+            let mut e = Ast::Bin(BinOp::Lt, Box::new(var(0)), Box::new(lit(1_000_000)));
+            for i in 1..n.max(2) {
+                let c = Ast::Bin(BinOp::Geq, Box::new(var(i)), Box::new(lit(0)));
+                e = Ast::Bin(if (i as u64 + salt) % 4 == 0 { BinOp::Or } else { BinOp::And }, Box::new(e), Box::new(c));
+            }
+            ("logic chain over n comparisons", e)
+        },
+        12 => {
+            // a sequence open at every one of n nesting levels: `1, (1, (1, ... (1, 2)))`, `0; (0; ( ... ))`,
+            // `x = 0; 7, (x = 0; 7, ( ... ))`
+            let depth = n.min(300);
+            let mut e = Ast::Tuple(vec![lit(1), lit(2)]);
+            for i in 0..depth {
+                e = match salt % 3 {
+                    0 => Ast::Tuple(vec![lit(i), e]),
+                    1 => Ast::Chain(vec![lit(0), e]),
+                    _ => Ast::Chain(vec![Ast::Assign(AssignOp::Set, "x".into(), Box::new(lit(i))), Ast::Tuple(vec![lit(7), e])]),
+                };
+            }
+            ("sequence open at each of n nesting levels", e)
+        },
+        13 => {
+            // n plain nesting levels of parentheses and calls around a value
+            let mut e = match salt % 3 {
+                0 => lit(1),
+                1 => Ast::Bin(BinOp::Sub, Box::new(Ast::Call("rec".into(), Box::new(lit(1)))), Box::new(Ast::Call("rec".into(), Box::new(lit(2))))),
+                _ => Ast::Chain(vec![
+                    Ast::Assign(AssignOp::Set, "a".into(), Box::new(lit(1))),
+                    Ast::Assign(AssignOp::Set, "a".into(), Box::new(lit(2))),
+                    Ast::Var("a".into()),
+                ]),
+            };
+            for i in 0..n.min(400) {
+                e = if (i as u64 + salt) % 4 == 0 { Ast::Call("rec".into(), Box::new(e)) } else { Ast::Paren(Box::new(e)) };
+            }
+            ("n nesting levels of parentheses", e)
+        },
+        _ => {
+            // the failure sits at position n - 1 of a long chain: everything before must have happened
+            // n effectful statements, one of which (in the middle or near the end) fails: everything
+            // before it must have happened, nothing after it may happen
+            let len = n.max(3);
+            let fail_at = if salt % 2 == 0 { len / 2 } else { len - 2 };
+            let v: Vec<Ast> = (0..len)
+                .map(|i| {
+                    if i == fail_at {
+                        Ast::Bin(BinOp::Div, Box::new(lit(n)), Box::new(lit(0)))
+                    } else if i % 2 == 0 {
+                        Ast::Assign(AssignOp::Set, format!("v{}", i % 7), Box::new(lit(i)))
+                    } else {
+                        Ast::Call("rec".into(), Box::new(lit(i)))
+                    }
+                })
+                .collect();
+            let seq = if salt % 3 == 0 { Ast::Tuple(v) } else { Ast::Chain(v) };
+            ("sequence of n effectful elements, one of which fails", seq)
+        },
+    };
+    Scaled { shape: name, n, ast, ctx }
+}
+
+/// Random scaled programs (shape, size from SCALE_SIZES, salt).
+pub fn arb_scaled() -> BoxedStrategy<Scaled> {
+    (0usize..SCALED_SHAPES, 0usize..SCALE_SIZES.len(), 0u64..64).prop_map(|(s, k, salt)| scaled(s, SCALE_SIZES[k], salt)).boxed()
+}
+
+/// Every (shape, size) once, salt derived from the pair.
+pub fn all_scaled() -> Vec<Scaled> {
+    let mut v = Vec::new();
+    for s in 0..SCALED_SHAPES {
+        for (k, n) in SCALE_SIZES.iter().enumerate() {
+            v.push(scaled(s, *n, (s * 31 + k * 7) as u64));
+        }
+    }
+    v
+}
